@@ -188,6 +188,10 @@ def check_invocations(obs, ro, ref, prog, lazy_guard=None):
                 props = ['C03']
                 if prog['nodes'][node].get('start_of') or _in_any_sub(ref, node):
                     props.append('C11')
+                wc = _wrong_case(prog, node, rec['kwargs'], exp_nodes[node])
+                if wc:
+                    out.append(F(['C09', 'C03'], 'wrong_case_routed', node=node, param=wc[0], got_case=wc[1],
+                                 expected_case=wc[2]))
                 out.append(F(props, kind, node=node, got=_short(rec['kwargs'], 400),
                              exp=[_short(x.kwargs, 400) for x in exp_nodes[node][:3]],
                              decl=sorted(decl)))
@@ -201,6 +205,30 @@ def check_invocations(obs, ro, ref, prog, lazy_guard=None):
                 out.append(F(['C01', 'C12'], 'missing_execution', node=key[0], got=counts.get(key, 0),
                              exp=e.n))
     return out, n_cmp
+
+
+def _term_node(v):
+    if isinstance(v, tuple) and len(v) == 3 and v[0] in ('V', 'D'):
+        return v[1]
+    return None
+
+
+def _wrong_case(prog, node, kwargs, expected):
+    """The invocation agrees with an expected one on every argument except a SwitchCase parameter, whose
+    value was produced by another case node than the selected one."""
+    sw = {p: {c for _, c in m[3]} for p, m in prog['nodes'][node].get('params', []) if m[0] == 'sw'}
+    if not sw:
+        return None
+    for e in expected:
+        if set(e.kwargs) != set(kwargs):
+            continue
+        diff = [p for p in kwargs if kwargs[p] != e.kwargs[p]]
+        if len(diff) == 1 and diff[0] in sw:
+            p = diff[0]
+            got, exp = _term_node(kwargs[p]), _term_node(e.kwargs[p])
+            if got in sw[p] and exp in sw[p] and got != exp:
+                return (p, got, exp)
+    return None
 
 
 def _in_any_sub(ref, node):
@@ -258,6 +286,28 @@ def _all_cons_closure(prog, n):
                 seen.add(c[0])
                 st.append(c[0])
     return out
+
+
+def check_dispatch(obs, prog):
+    """C17/C06: each node is dispatched as its declaration says: coroutine / inline on the loop, sync nodes
+    without the non_async tag through the thread pool, process-tagged nodes through the process pool."""
+    out = []
+    submits = {}
+    for r in obs.trace:
+        if r['k'] == 'submit':
+            submits.setdefault(r['node'], []).append(r['pool'])
+    started = {r['node'] for r in obs.trace if r['k'] == 'body_start'}
+    n = 0
+    for nid in started | set(submits):
+        mode = prog['nodes'][nid].get('mode')
+        exp = {'async': None, 'inline': None, 'process': 'process'}.get(mode, 'thread')
+        got = set(submits.get(nid, []))
+        n += 1
+        if exp is None and got:
+            out.append(F(['C17', 'C06'], 'wrong_dispatch', node=nid, mode=mode, submitted_to=sorted(got)))
+        elif exp is not None and got != {exp}:
+            out.append(F(['C17', 'C06'], 'wrong_dispatch', node=nid, mode=mode, submitted_to=sorted(got), expected=exp))
+    return out, n
 
 
 def check_defaults(obs, ro, ref):
